@@ -213,7 +213,41 @@ func renamePrefixes(e Expr, m map[string]string) Expr {
 	return re(e)
 }
 
+// reservedNamesDoc: elements and attributes whose names are spelled like axis names and node types, in the namespaces
+// that prefixes spelled the same way are bound to (a FIXED case: every prefix x local pair is asked on every run)
+func reservedNamesCases(rn *Runner) {
+	st := func(sp, n string) Event { return Event{Kind: EvStart, A: sp, B: n} }
+	at := func(sp, l, v string) Event { return Event{Kind: EvAttr, A: sp, B: l, C: v} }
+	tx := func(v string) Event { return Event{Kind: EvText, A: v} }
+	end := Event{Kind: EvEnd}
+	evs := []Event{st("", "r"), {Kind: EvNs, A: "u", B: "urn:u1"}, {Kind: EvNs, A: "w", B: "urn:u2"}}
+	words := []string{"child", "self", "text", "node", "descendant", "comment", "ancestor", "attribute"}
+	for i, w := range words {
+		evs = append(evs, st("urn:u1", w), at("urn:u1", words[(i+1)%len(words)], "a"+w), at("urn:u2", w, "b"+w), tx("1"+w), end)
+		evs = append(evs, st("urn:u2", w), at("urn:u1", w, "c"+w), tx("2"+w), end, st("", w), tx("0"+w), end)
+	}
+	evs = append(evs, end)
+	d := rn.NewDoc(evs)
+	env := &Env{NS: []NSBind{{"child", "urn:u1"}, {"self", "urn:u1"}, {"descendant", "urn:u1"}, {"text", "urn:u2"}, {"node", "urn:u2"}, {"attribute", "urn:u2"}, {"p", "urn:u1"}, {"none", ""}}}
+	dos := &Stp{Axis: "descendant-or-self", Test: NodeTest{Kind: "node"}, Abbrev: true}
+	for _, pfx := range []string{"child", "self", "descendant", "text", "node", "attribute", "p", "none"} {
+		for _, l := range append(words, "r", "nope") {
+			for _, ax := range []string{"child", "attribute"} {
+				for _, t := range []NodeTest{{Kind: "qn", Prefix: pfx, Local: l}} {
+					e := &EPath{Abs: true, Steps: []*Stp{dos, {Axis: ax, Test: t, Abbrev: true}}}
+					q := &QCase{Doc: d, Start: Path{}, Env: env, E: e, Text: Render(e, RenderOpts{}), Family: "reserved-word-names"}
+					rn.CheckQuery(q, "a name test p:x is {binding of p}x, whatever words p and x are spelled like", nonEmptyNodes)
+				}
+			}
+		}
+		e := &EPath{Abs: true, Steps: []*Stp{dos, {Axis: "child", Test: NodeTest{Kind: "nsany", Prefix: pfx}, Abbrev: true}}}
+		rn.CheckQuery(&QCase{Doc: d, Start: Path{}, Env: env, E: e, Text: Render(e, RenderOpts{}), Family: "reserved-word-names"}, "p:* is every element in the binding of p", nonEmptyNodes)
+	}
+	rn.DropDoc(d)
+}
+
 func famC11(rn *Runner) {
+	reservedNamesCases(rn)
 	for di := 0; di < rn.Scale(10, 150) && !rn.TooMany(); di++ {
 		d := rn.genDoc(rn.Scale(45, 120))
 		rn.checkCallerResults(d, "all") // a caller-implemented Result as variable and function result
